@@ -55,7 +55,7 @@ WALL = {"quick": 58, "thorough": 1500}
 BATCH = {"quick": 25, "thorough": 150}
 SELFTEST_RUNS = 24
 SHRINK_BUDGET_S = {"quick": 12.0, "thorough": 60.0}
-SHRINK_SKIP = ("driver", "tags", "t0_ns")
+SHRINK_SKIP = ("driver", "tags", "t0_ns", "bv")
 
 RULE = (
     "each case = one driver of the component zoo (chosen uniformly among %d drivers covering %d Entity classes) with a "
@@ -97,7 +97,8 @@ ASSUMPTIONS = [
                                                                                  zoo.CREEP_NS_PER_DELIVERY, zoo.CREEP_WINDOW),
 ]
 EXPECTED_PROBES = ([f"driven.{c}" for c in DRIVEN_CLASSES] +
-                   ["probe.arr_burst", "probe.arr_idle_gap", "probe.arr_ns_step", "probe.arr_at_timer_expiry", "probe.arr_steady", "probe.arr_decimal_step", "probe.nonzero_start_time", "probe.arr_retry_storm", "probe.arr_overload", "probe.signed_jitter",
+                   ["probe.arr_burst", "probe.arr_idle_gap", "probe.arr_ns_step", "probe.arr_at_timer_expiry", "probe.arr_steady", "probe.arr_decimal_step", "probe.nonzero_start_time", "probe.arr_retry_storm", "probe.arr_overload", "probe.signed_jitter", "probe.boundary_value_accepted",
+                    "probe.boundary_value_refused",
                     "probe.zero_delay_config", "probe.same_instant_10plus", "probe.repo_timer_in_future",
                     "probe.process_parked_on_future", "fault.partition", "fault.crash", "fault.pause", "fault.loss",
                     "fault.latency", "fault.stragglers", "fault.msgs_dropped_by_partition"])
@@ -112,6 +113,18 @@ def gen(rng, tier):
           "cfg": DRIVERS[name]["gen"](rng)}
     # Simulation(start_time=...): mostly the epoch, sometimes 1 s + 7 ns, 1 h + 1 ns, 1 day + 123 456 789 ns
     sc["t0_ns"] = rng.choice(T0_CHOICES)
+    # boundary values: in a third of the runs 1-2 numeric parameters (timings, sizes, counts) are replaced by 0 or by the
+    # smallest positive value (1 microsecond / 1); constructor validation decides whether the value is legal (run())
+    sc["bv"] = []
+    if rng.random() < 0.35:
+        cands = zoo.bv_candidates(sc["cfg"])
+        for _ in range(rng.choice([1, 1, 2])):
+            if cands:
+                path, old = cands[rng.randrange(len(cands))]
+                if isinstance(old, float):
+                    sc["bv"].append([path, rng.choice([0.0, 0.0, 0.000001])])
+                else:
+                    sc["bv"].append([path, rng.choice([0, 0, 1])])
     return sc
 
 
@@ -130,8 +143,29 @@ def run(sc):
     if d is None or not isinstance(sc.get("cfg"), dict):
         raise InvalidScenario("driver")
     zoo.check_cfg_floats(sc["cfg"])
-    z = zoo.Zoo(sc, subject=d["classes"][0], classes=d["classes"])
-    out = z.execute(d["build"], sc["cfg"])
+    bv = sc.get("bv") or []
+    if not isinstance(bv, list) or len(bv) > 4:
+        raise InvalidScenario("bv")
+    bv_state = None
+    z = out = None
+    if bv:
+        cfg = zoo.bv_apply(sc["cfg"], bv)
+        zoo.check_cfg_floats(cfg)
+        zoo.LENIENT[0] = True
+        try:
+            z = zoo.Zoo(sc, subject=d["classes"][0], classes=d["classes"])
+            out = z.execute(d["build"], cfg)
+            bv_state = "accepted"
+        except InvalidScenario:
+            # the constructor (or the driver's own structural validation) refuses the boundary value: not a legal
+            # configuration - run the unmodified configuration instead
+            bv_state = "refused"
+            z = out = None
+        finally:
+            zoo.LENIENT[0] = False
+    if out is None:
+        z = zoo.Zoo(sc, subject=d["classes"][0], classes=d["classes"])
+        out = z.execute(d["build"], sc["cfg"])
     sig, msg = zoo.pick_signature(z.violations)
     counters = {k: v for k, v in z.probes.items()}
     driven_subject = False
@@ -140,6 +174,8 @@ def run(sc):
             counters[f"driven.{cls}"] = 1
             driven_subject = driven_subject or cls == d["classes"][0]
     counters[f"runs.{d['name']}"] = 1
+    if bv_state:
+        counters[f"probe.boundary_value_{bv_state}"] = 1
     if sc.get("t0_ns"):
         counters["probe.nonzero_start_time"] = 1
     if out["status"] == "budget":
